@@ -37,9 +37,8 @@ func (o *opt) Match(args []string, c *ParseContext) (bool, []string) {
 	for idx < len(args) {
 		arg := args[idx]
 		switch {
-		case arg == "-":
-			idx++
-		case arg == "--":
+		case arg == "-" || arg == "--":
+			// a lone dash is a positional argument: like any other one it ends the search
 			return o.theOne.ValueSetFromEnv, args
 		case strings.HasPrefix(arg, "--"):
 			matched, consumed, nargs := o.matchLongOpt(args, idx, c)
